@@ -1,5 +1,5 @@
 """Input generators. Every random choice comes from the `random.Random` passed in (seeded from VERIF_SEED)."""
-import random
+import random, re
 
 HIER = ('ALINEA ARTICLE BOOK CHAPTER CLAUSE DIVISION INDENT LEVEL LIST PARAGRAPH PART POINT PROVISO RULE SECTION '
         'SUBCHAPTER SUBCLAUSE SUBDIVISION SUBLIST SUBPARAGRAPH SUBPART SUBRULE SUBSECTION SUBTITLE TITLE TOME '
@@ -244,7 +244,8 @@ class DocGen:
         if k == 'quote':
             return [p + 'QUOTE', p + '  ' + self.words()]
         if k == 'fn-unref':
-            return [p + self.words(), p + 'FOOTNOTE 9' + str(rnd.randint(0, 9)), p + '  ' + self.words()]
+            return ([p + self.words(), p + 'FOOTNOTE 9' + str(rnd.randint(0, 9))] + [p + '  ' + self.words() for _ in range(rnd.randint(1, 3))]
+                    + ([p + '  BULLETS', p + '    * ' + self.words()] if rnd.random() < 0.3 else []))
         if k == 'fn-dup':
             return [p + 'FOOTNOTE 1', p + '  ' + self.words(1), p + self.words(1) + '{{FOOTNOTE 1}}' + rnd.choice(['', ' and {{FOOTNOTE 1}}']), p + 'FOOTNOTE 1', p + '  ' + self.words(1)]
         return [p + self.words() + '{{FOOTNOTE x}}']
@@ -255,6 +256,8 @@ class DocGen:
         if self.corners and rnd.random() < self.corners:
             return self.corner(ind)
         r = rnd.random()
+        if r < 0.05:
+            return self.para_multiline_remark(ind)
         if r < 0.12:
             return [p + 'P' + rnd.choice(['.x', '{class y}', '']) + ' ' + self.text()]
         if r < 0.24 and self.footnotes:
@@ -262,6 +265,9 @@ class DocGen:
                 return [p + self.text() + '{{FOOTNOTE %s}}' % self.promised.pop(0)]
             self.fn += 1
             m = str(self.fn)
+            if rnd.random() < 0.15:
+                # markers are free text up to the closing braces: quotes, brackets, symbols, other scripts
+                m = rnd.choice(['"%s"', "%s'", '[%s]', '*%s', '%s)', '\u00a7%s', '\u05d0%s', '%s&<', '%s/x', 'a %s']) % m
             ref = [p + self.text() + '{{FOOTNOTE %s}}' % m]
             if self.scatter and rnd.random() < 0.6:
                 self.pending.append(m)
@@ -270,6 +276,27 @@ class DocGen:
             # the block may also come before the line that refers to it (it is looked up in the enclosing elements)
             return blk + ref if rnd.random() < 0.25 else ref + blk
         return [p + self.text()]
+
+    def para_multiline_remark(self, ind):
+        """an editorial remark spanning lines (each line break is a <br/>), possibly inside another inline; continuation lines
+        start with text or with an inline, the closing braces may stand on a line of their own"""
+        rnd = self.rng
+        p = '  ' * ind
+        lines = [self.words(1) + ' {{*' + self.words()]
+        for _ in range(rnd.randint(1, 2)):
+            k = rnd.random()
+            lines.append(self.words() if k < 0.4 else rnd.choice(['**%s**', '//%s//', '{{>http://x.y/z %s}}', '{{^%s}}']) % self.words(1)
+                         + (' ' + self.words(1) if rnd.random() < 0.5 else ''))
+        if rnd.random() < 0.25:
+            lines.append('}} ' + self.words(1))
+        else:
+            lines[-1] += '}} ' + self.words(1)
+        if rnd.random() < 0.25:
+            # the whole remark inside a superscript / subscript / bold
+            o, c = rnd.choice([('{{^', '}}'), ('{{_', '}}'), ('**', '**')])
+            lines[0] = lines[0].replace(' {{*', ' ' + o + self.words(1) + ' {{*', 1)
+            lines[-1] = lines[-1].replace('}} ', '}}' + c + ' ', 1)
+        return [p + l for l in lines]
 
     def para_plain(self, ind):
         return ['  ' * ind + self.text()]
@@ -435,7 +462,7 @@ class DocGen:
                 out.append('BODY')
             ind = 1 if out else rnd.choice([0, 1])
             for _ in range(rnd.randint(1, 3)):
-                head = rnd.choice(SPEECH_CONTAINERS) + (' ' + self.num() if rnd.random() < 0.5 else '') + (' - ' + self.text() if rnd.random() < 0.5 else '')
+                head = rnd.choice(SPEECH_CONTAINERS) + self.attrs() + (' ' + self.num() if rnd.random() < 0.5 else '') + (' - ' + self.text() if rnd.random() < 0.5 else '')
                 out.append('  ' * ind + head)
                 for _ in range(rnd.randint(0, 3)):
                     out += self.speech(ind + 1, 1)
@@ -589,3 +616,122 @@ def mutate(rng, s):
         return s[:i] + rng.choice(GrammarGen.ALPHABET) + s[i + 1:]
     j = min(len(s), i + rng.randint(1, 8))
     return s[:j] + s[i:j] + s[j:]
+
+
+# ------------------------------------------------------------------ pairwise nesting (deterministic)
+def _ind(lines, n):
+    return [('  ' * n + l) if l else l for l in lines]
+
+
+# words marked ~ are payload: pairwise_docs(tokens=True) turns each into a distinct token w<N> (C03), otherwise the mark is dropped
+PW_INLINES = ['**~b**', '//~i//', '__~u__', '{{^~sup}}', '{{_~sub}}', '{{>http://x.y/z ~ref}}', '{{>#sec_1 **~b**}}', '{{term{refersTo #t} ~term}}',
+              '{{abbr{title T} ~abbr}}', '{{em ~em}}', '{{+~ins}}', '{{-~del}}', '{{def ~def}}', '{{inline{name foo} ~inl}}', '{{*~remark}}',
+              '{{IMG http://a/b.png alt}}', '**~b** //~i//', '~a \\*\\* ~b', '{{em{class c} ~x}}']
+
+
+def pw_inner_blocks():
+    """named multi-line block-level constructs"""
+    out = [('para', ['~plain ~words ~here']), ('para2', ['~first ~para', '~second ~para']),
+           ('p-attr', ['P.cls{status editorial} ~with ~attrs']), ('p-bare', ['P ~just ~p']),
+           ('items', ['ITEMS', '  ~intro ~line', '  ITEM (a)', '    ~item ~one', '  ITEM (b) - ~Head', '    SUBHEADING ~sub', '    ~item ~two', '  ~wrap ~line']),
+           ('items-bare', ['ITEMS', '  ITEM', '  ITEM (b)']),
+           ('bullets', ['BULLETS', '  * ~one', '  * ~two', '    ~more']),
+           ('bullets-empty', ['BULLETS', '  *', '', '    ~under ~empty']),
+           ('table', ['TABLE', '  TR', '    TH', '      ~head', '    TC{colspan 2}', '      ~cell']),
+           ('quote', ['QUOTE', '  ~quoted ~para']), ('quote-hier', ['QUOTE{startQuote "}', '  SEC 9.', '    ~in ~quote']),
+           ('blocks', ['BLOCKS', '  ~in ~blocks', '  ~again']),
+           ('xh', ['CROSSHEADING ~cross ~heading']), ('xh-bare', ['CROSSHEADING']), ('lt', ['LONGTITLE ~long ~title']), ('lt-bare', ['LONGTITLE']),
+           ('fn', ['~with ~note{{FOOTNOTE 7}}', 'FOOTNOTE 7', '  ~note ~text']), ('fn-before', ['FOOTNOTE 8', '  ~early ~note', '~refers{{FOOTNOTE 8}}']),
+           ('fn-unref', ['FOOTNOTE 9', '  ~orphan ~note']), ('fn-unref3', ['FOOTNOTE 9', '  ~first ~block', '  ~second ~block', '  ITEMS', '    ITEM (a)', '      ~third']),
+           ('fn-oddmarker', ['~odd{{FOOTNOTE "a"}} ~and{{FOOTNOTE it\'s}}{{FOOTNOTE *}}', 'FOOTNOTE "a"', '  ~quoted ~marker', 'FOOTNOTE it\'s', '  ~apostrophe', 'FOOTNOTE *', '  ~star']), ('fn-missing', ['~no ~block{{FOOTNOTE 6}}']),
+           ('fn-nested', ['~outer{{FOOTNOTE 4}}', 'FOOTNOTE 4', '  ~inner{{FOOTNOTE 5}}', '  FOOTNOTE 5', '    ~deepest']),
+           ('hier', ['SUBSEC (1) - ~Sub ~head', '  ~sub ~text']), ('hier-bare', ['PARA']), ('hier-sub', ['SEC 2.', '  SUBHEADING ~subhead', '  ~body ~text']),
+           ('escaped', ['\\PART 1 \\- \\*\\*~x\\*\\*']), ('keywordish', ['PARTS ~of ~speech', 'SECTIONAL ~title', 'ITEMised']),
+           ('odd-num', ['PARA (\u2014)', '  ~x', 'PARA nn', '  ~y', 'PARA 2_2', '  ~z'])]
+    for i, inl in enumerate(PW_INLINES):
+        out.append(('inl%d' % i, ['~text ' + inl + ' ~tail', inl, inl + inl]))
+    return out
+
+
+def pw_contexts():
+    """named contexts: function(lines) -> (document lines, root)"""
+    def top(b):
+        return b, 'act'
+
+    def hier(b):
+        return ['SEC 1. - ~Heading'] + _ind(b, 1), 'act'
+
+    def hier_attrs(b):
+        return ['PART.a{refersTo #r} A - ~Part', '  CHAPTER I', '    SEC 1.'] + _ind(b, 3), 'bill'
+
+    def item(b):
+        return ['SEC 1.', '  ITEMS', '    ITEM (a)'] + _ind(b, 3), 'act'
+
+    def bullet(b):
+        return ['BULLETS', '  *'] + _ind(b, 2), 'doc'
+
+    def cell(b):
+        return ['TABLE', '  TR', '    TC'] + _ind(b, 3), 'statement'
+
+    def quote(b):
+        return ['SEC 1.', '  QUOTE'] + _ind(b, 2), 'act'
+
+    def blocks(b):
+        return ['BLOCKS{class k}'] + _ind(b, 1), 'doc'
+
+    def footnote(b):
+        return ['~holder{{FOOTNOTE 1}}', 'FOOTNOTE 1'] + _ind(b, 1), 'act'
+
+    def attachment(b):
+        return ['~body ~text', 'SCHEDULE ~Sched ~heading', '  SUBHEADING ~sched ~sub'] + _ind(b, 1) + ['  ANNEXURE ~inner ~annex'] + _ind(b, 2), 'act'
+
+    def preface(b):
+        return ['PREFACE'] + _ind(b, 1) + ['PREAMBLE'] + _ind(b, 1) + ['BODY', '  SEC 1.', '    ~x', 'CONCLUSIONS'] + _ind(b, 1), 'act'
+
+    def judgment(b):
+        return ['INTRODUCTION'] + _ind(b, 1) + ['DECISION'] + _ind(b, 1), 'judgment'
+
+    def speech(b):
+        return ['DEBATESECTION 1 - ~Debate', '  SPEECH', '    FROM ~The ~Speaker'] + _ind(b, 2) + ['  QUESTION{by #q}', '    FROM ~Mr ~Q'] + _ind(b, 2), 'debate'
+
+    def speech_attrs(b):
+        return ['DEBATESECTION.opening{refersTo #p} 1 - ~Debate', '  PRAYERS{}', '    SPEECHGROUP.g', '      FROM ~Chair', '      SPEECH{by #me}.s', '        FROM ~A ~Member'] + _ind(b, 4), 'debate'
+
+    def report(b):
+        return ['SEC 1.'] + _ind(b, 1), 'debateReport'
+    return [('top', top), ('hier', hier), ('hier-attrs', hier_attrs), ('item', item), ('bullet', bullet), ('cell', cell), ('quote', quote),
+            ('blocks', blocks), ('footnote', footnote), ('attachment', attachment), ('preface', preface), ('judgment', judgment),
+            ('speech', speech), ('speech-attrs', speech_attrs), ('report', report)]
+
+
+def _pw_finish(t, tokens):
+    if not tokens:
+        return t.replace('~', '')
+    n = [0]
+
+    def rep(m):
+        n[0] += 1
+        return 'w%d' % n[0]
+    return re.sub(r'~\w+', rep, t)
+
+
+def pairwise_docs(tokens=False):
+    """every context x every inner block construct, plus every inline form in every one-line position; deterministic.
+    A construct used twice in one document (preface/preamble/conclusions, attachment and nested attachment, two speeches)
+    gets distinct tokens each time."""
+    out = []
+    for cn, cf in pw_contexts():
+        for bn, b in pw_inner_blocks():
+            lines, root = cf(b)
+            out.append(('%s/%s' % (cn, bn), _pw_finish('\n'.join(lines) + '\n', tokens), root))
+    for i, inl in enumerate(PW_INLINES):
+        for pn, tmpl in [('heading', 'SEC 1. - ~H %s ~end\n  ~x\n'), ('subheading', 'SEC 1.\n  SUBHEADING ~S %s\n  ~x\n'),
+                         ('crossheading', 'CROSSHEADING ~C %s\nSEC 1.\n  ~x\n'), ('longtitle', 'PREFACE\n  LONGTITLE ~L %s\nBODY\n  ~x\n'),
+                         ('listintro', 'ITEMS\n  ~intro %s\n  ITEM (a)\n    ~x\n  ~wrap %s\n'), ('itemhead', 'ITEMS\n  ITEM (a) - %s\n    ~x\n'),
+                         ('bulletline', 'BULLETS\n  * ~b %s\n'), ('atthead', '~x\nSCHEDULE ~S %s\n  SUBHEADING %s\n  ~y\n'),
+                         ('from', 'DEBATESECTION\n  SPEECH\n    FROM %s\n    ~x\n'), ('scene', 'DEBATESECTION\n  SCENE %s\n'),
+                         ('fninline', '~x{{FOOTNOTE 1}}\nFOOTNOTE 1\n  ~n %s\n'), ('nestedinline', '~p {{em ~a %s ~b}} **~c %s ~d**\n')]:
+            t = tmpl.replace('%s', inl)
+            root = 'debate' if pn in ('from', 'scene') else 'act'
+            out.append(('%s/inl%d' % (pn, i), _pw_finish(t, tokens), root))
+    return out
